@@ -24,8 +24,15 @@ def run(ctx, rep):
                    "validates all four sufficiency checks, then optimises, and returns the optimiser's value", floor=8)
     rep.rule("A4", "CVXPY algorithm: solver names / constraint modes accepted by the option are exactly those optimize dispatches on; "
                    "'physical' is the branch that builds the constraints", floor=3)
+    rep.rule("A5", "backtracking: each stopping mode measures what its name says - loss difference f(x)-f(x'), its absolute value, "
+                   "the Euclidean length of the step x-x', the Euclidean length of the projected-gradient direction", floor=4)
+    rep.rule("A6", "LossMinimizationEstimator.calc_estimate is calc_estimate_sequence on a one-element sequence, arguments handed on as received",
+             floor=1)
+    from .c09 import check_single_is_sequence_of_one
+    check_single_is_sequence_of_one(ctx, rep, "A6", E + "loss_minimization_estimator.LossMinimizationEstimator")
     _a1(ctx, rep)
     _a2(ctx, rep)
+    _a5(ctx, rep)
     _a3(ctx, rep)
     _a4(ctx, rep)
 
@@ -250,3 +257,104 @@ def _a4(ctx, rep):
             if not (len(prob) == 1 and len(prob[0].args) == 2 and unparse(prob[0].args[1]) == "constraints"):
                 ok, why = False, "the problem is not built with the selected constraints"
     rep.check(ok, "A4", f, "constraint dispatch", "'physical' builds the constraints handed to cp.Problem; 'unconstraint' hands []", why, node=f.node)
+
+
+
+# ------------------------------------------------------------------------------ A5
+def _norm2_of(e):
+    """('ok', vector expr) for a Euclidean norm spelling; ('bad', why) for a recognised non-norm; (None, None) otherwise."""
+    dn = (dotted(e.func) or "") if isinstance(e, ast.Call) else ""
+    if dn in ("np.linalg.norm", "numpy.linalg.norm", "LA.norm") and len(e.args) == 1 and not e.keywords:
+        return "ok", e.args[0]
+    if dn in ("np.sqrt", "numpy.sqrt", "math.sqrt") and len(e.args) == 1:
+        a = e.args[0]
+        # sqrt(sum(v ** 2)) / sqrt(sum(v * v)) / sqrt(v @ v) / sqrt(np.dot(v, v))
+        if isinstance(a, ast.Call) and (dotted(a.func) or "") in ("np.sum", "numpy.sum", "sum") and len(a.args) == 1:
+            b = a.args[0]
+            if isinstance(b, ast.BinOp) and isinstance(b.op, ast.Pow) and is_num(b.right, 2):
+                return "ok", b.left
+            if isinstance(b, ast.BinOp) and isinstance(b.op, ast.Mult) and unparse(b.left) == unparse(b.right):
+                return "ok", b.left
+            if isinstance(b, ast.Call) and (dotted(b.func) or "") in ("np.abs", "np.square") and b.args:
+                if (dotted(b.func) or "").endswith("square"):
+                    return "ok", b.args[0]
+                return "bad", "sqrt of the sum of absolute values"
+            return "bad", "sqrt(sum(%s)): the summand is not a square" % unparse(b)
+        if isinstance(a, ast.BinOp) and isinstance(a.op, ast.Pow) and is_num(a.right, 2) and isinstance(a.left, ast.Call) \
+                and (dotted(a.left.func) or "") in ("np.sum", "numpy.sum", "sum"):
+            return "bad", "sqrt((sum of the components) ** 2) = |sum of the components|: components of opposite sign cancel, this is not a length"
+        if isinstance(a, ast.BinOp) and isinstance(a.op, ast.MatMult) and unparse(a.left) == unparse(a.right):
+            return "ok", a.left
+        if isinstance(a, ast.Call) and (dotted(a.func) or "") in ("np.dot", "np.vdot", "np.inner") and len(a.args) == 2 and unparse(a.args[0]) == unparse(a.args[1]):
+            return "ok", a.args[0]
+    return None, None
+
+
+def _a5(ctx, rep):
+    f = ctx.ix.func(ALGOS["backtracking"])
+    lp = _main_loop(f)
+    if lp is None:
+        rep.undecided("A5", f, "loop", "main loop not found")
+        return
+    defs = {}
+    for st in lp.body:
+        if isinstance(st, ast.Assign) and len(st.targets) == 1 and isinstance(st.targets[0], ast.Name):
+            defs.setdefault(st.targets[0].id, st.value)
+    branches = {}
+    for n in ast.walk(lp):
+        if isinstance(n, ast.If) and isinstance(n.test, ast.Compare) and "mode_stopping_criterion_gradient_descent" in unparse(n.test.left) \
+                and isinstance(n.test.ops[0], ast.Eq):
+            m = const(n.test.comparators[0])
+            for st in n.body:
+                if isinstance(st, ast.Assign) and unparse(st.targets[0]) == "error_value":
+                    branches[m] = st
+    # the step and the direction: x_next = x_prev + alpha * y_prev
+    xn = defs.get("x_next")
+    direction = None
+    if isinstance(xn, ast.BinOp) and isinstance(xn.op, ast.Add) and unparse(xn.left) == "x_prev" and isinstance(xn.right, ast.BinOp) \
+            and isinstance(xn.right.op, ast.Mult):
+        direction = unparse(xn.right.right) if unparse(xn.right.left) == "alpha" else (unparse(xn.right.left) if unparse(xn.right.right) == "alpha" else None)
+
+    def loss_diff(e):
+        return isinstance(e, ast.BinOp) and isinstance(e.op, ast.Sub) and unparse(e.left) == "loss_function.value(x_prev)" \
+            and unparse(e.right) == "loss_function.value(x_next)"
+    for m, st in sorted(branches.items()):
+        v = st.value
+        con = "error value of mode '%s'" % m
+        if m == "single_difference_loss":
+            rep.check(loss_diff(v), "A5", f, con, "f(x) - f(x')", "`%s` is not loss(x_prev) - loss(x_next)" % unparse(v), node=st)
+        elif m == "sum_absolute_difference_loss":
+            ok = isinstance(v, ast.Call) and (dotted(v.func) or "") in ("np.abs", "abs", "np.absolute", "np.fabs") and len(v.args) == 1 and \
+                (loss_diff(v.args[0]) or (isinstance(v.args[0], ast.BinOp) and loss_diff(ast.BinOp(left=v.args[0].right, op=ast.Sub(), right=v.args[0].left))))
+            rep.check(ok, "A5", f, con, "|f(x) - f(x')|", "`%s` is not |loss(x_prev) - loss(x_next)|" % unparse(v), node=st)
+        elif m in ("sum_absolute_difference_variable", "sum_absolute_difference_projected_gradient"):
+            kind, arg = _norm2_of(v)
+            if kind == "bad":
+                rep.violation("A5", f, con, "`%s`: %s" % (unparse(v), arg), node=st)
+            elif kind is None:
+                rep.undecided("A5", f, con, "`%s` is not a recognised spelling of a Euclidean norm" % unparse(v))
+            elif m == "sum_absolute_difference_variable":
+                t = unparse(arg).replace(" ", "")
+                rep.check(t in ("x_prev-x_next", "x_next-x_prev", "(x_prev-x_next)", "(x_next-x_prev)"), "A5", f, con, "||x - x'||",
+                          "the norm is taken of `%s`, not of the step x_prev - x_next" % unparse(arg), node=st)
+            else:
+                if direction is None:
+                    rep.undecided("A5", f, con, "step is not x_prev + alpha * <direction>")
+                else:
+                    rep.check(unparse(arg) == direction, "A5", f, con, "||%s|| (the projected-gradient direction)" % direction,
+                              "the norm is taken of `%s`; the projected-gradient direction of this loop is `%s`" % (unparse(arg), direction), node=st)
+        else:
+            rep.info("A5", f, con, "mode not in the property's list")
+    # siblings (outside the property's quantifier: information only)
+    for name in ("momentum", "fista"):
+        g = ctx.ix.func(ALGOS[name])
+        for n in ast.walk(g.node):
+            if isinstance(n, ast.If) and isinstance(n.test, ast.Compare) and "mode_stopping_criterion_gradient_descent" in unparse(n.test.left) \
+                    and const(n.test.comparators[0]) == "sum_absolute_difference_projected_gradient":
+                for st in n.body:
+                    if isinstance(st, ast.Assign) and unparse(st.targets[0]) == "error_value":
+                        kind, arg = _norm2_of(st.value)
+                        if kind == "ok" and unparse(arg) == "x_next":
+                            rep.info("A5", g, "error value of mode 'sum_absolute_difference_projected_gradient'",
+                                     "%s measures ||x_next|| (the iterate), which does not tend to 0; C11 quantifies over the backtracking "
+                                     "algorithm only, so this is reported as information" % name, node=st)
